@@ -1,638 +1,8 @@
-(* SharedProofs.v — invariants of the shared_future model, for every construction mode, resolver kind,
-   any number of user threads of any kinds and every schedule (induction over reachability). *)
+(* SharedProofs.v — the invariant of SharedInv.v holds in every reachable state (every construction mode, resolver kind,
+   any number of user threads of any kinds, every schedule) *)
 From Cocls Require Import Base BaseProofs SharedDefs.
-Require Import ZifyBool.
-Ltac Zify.zify_post_hook ::= Z.div_mod_to_equations.
+From Cocls Require Export SharedInv SharedInvC SharedInvU SharedInvR.
 Local Open Scope nat_scope.
-
-Inductive reachable (ops : list (list Z)) : st -> Prop :=
-| r_init : reachable ops (init ops)
-| r_step s i : reachable ops s -> enabled s i = true -> reachable ops (fst (tstep s i)).
-
-(* ---------- counting ---------- *)
-Definition b2n (b : bool) : nat := if b then 1 else 0.
-(* handles owned by the creator / by a user at a given pc *)
-Definition cpc_handles (m : cmode) (pc : cpc) : nat :=
-  match pc with CDrop O => 1 | CDrop k => k | CDone => 0 | _ => own_handles m end.
-Definition upc_handles (pc : upc) : nat :=
-  match pc with UWait0 | UDone => 0 | UDecO => 2 | _ => 1 end.
-Fixpoint sumu (l : list uthr) : nat :=
-  match l with [] => 0 | u :: r => upc_handles (upcf u) + sumu r end.
-Definition nh (s : st) : nat := cpc_handles (mode s) (cpcf s) + sumu (users s).
-
-Fixpoint cnt (n : node) (l : list node) : nat :=
-  match l with [] => 0 | x :: r => (if node_eqb n x then 1 else 0) + cnt n r end.
-Fixpoint cntn (w : nat) (l : list nat) : nat :=
-  match l with [] => 0 | x :: r => (if Nat.eqb w x then 1 else 0) + cntn w r end.
-Definition chain (s : st) : list node := match slot s with SChain l => l | SReady => [] end.
-Definition tcount (s : st) : nat :=
-  cnt NT (chain s) + cnt NT (walk s) + match rpcf s with RClr => 1 | _ => 0 end.
-(* a user whose awaiter is linked in the chain / the detached rest / the suspend point *)
-Definition inlist (u : uthr) : nat :=
-  match upcf u with UParked => 1 | UFlag => if uflag u then 0 else 1 | _ => 0 end.
-Definition inl (us : list uthr) (w : nat) : nat :=
-  match nth_error us w with Some u => inlist u | None => 0 end.
-Definition occ (s : st) (w : nat) : nat :=
-  cnt (NU w) (chain s) + cnt (NU w) (walk s) + cntn w (acc s).
-Definition is_ready (s : st) : bool := match slot s with SReady => true | _ => false end.
-
-Arguments sumu : simpl never.
-Arguments cnt : simpl never.
-Arguments cntn : simpl never.
-
-(* which kinds can stand at which pc *)
-Definition kind_pc (u : uthr) : Prop :=
-  match upcf u, ukd u with
-  | UFlag, UKAwait WBlock => True
-  | UFlag, _ => False
-  | UParked, UKAwait WCoro | UParked, UKAwait WCallback => True
-  | UParked, _ => False
-  | USub _ _, UKAwait _ => True
-  | USub _ _, _ => False
-  | UDec, UKAwait _ => False
-  | _, _ => True
-  end.
-(* the sync_awaiter flag is raised only by the resolver's release of a blocked user *)
-Definition kind_ok (u : uthr) : Prop :=
-  kind_pc u /\ (uflag u = true -> upcf u = UFlag \/ upcf u = UDone).
-
-Record InvA (s : st) : Prop := {
-  (* reference count = handles + self reference, positive while the state lives *)
-  rc_ok : freed s = 0 -> rc s = nh s + b2n (selfref s) /\ 1 <= rc s;
-  fr_ok : freed s <= 1 /\ (freed s = 1 -> rc s = 0 /\ nh s = 0 /\ selfref s = false);
-  uaf_ok : uaf s = 0;
-  pd_ok : pctor s <= 1 /\ pdtor s = freed s * pctor s;
-  (* the self reference exists exactly while charge is between `_ptr = ptr` and its outcome, or the tracer is linked *)
-  tr_ok : match cpcf s with
-          | CClaim | CDtor | CSet => selfref s = false /\ tcount s = 0
-          | CSub _ _ => selfref s = true /\ tcount s = 0
-          | CClr => selfref s = true /\ tcount s = 0 /\ is_ready s = true
-          | _ => tcount s = b2n (selfref s) /\ (is_ready s = true \/ selfref s = true)
-          end;
-  (* the resolver's pc and the slot *)
-  rs_ok : match rpcf s with
-          | RXWait | RClaim | RResolve => is_ready s = false /\ walk s = [] /\ acc s = []
-          | RWalk | RClr => is_ready s = true
-          | RDone _ => is_ready s = true /\ walk s = [] /\ acc s = []
-          end;
-  kd_ok : forall j u, nth_error (users s) j = Some u -> kind_ok u
-}.
-(* every parked / blocked user is linked exactly once (chain, detached rest or suspend point), nobody else is *)
-Definition Inv (s : st) : Prop := InvA s /\ forall w, occ s w = inl (users s) w.
-
-(* ---------- list bookkeeping ---------- *)
-Lemma set_nth_length {A} (l : list A) i x : length (set_nth l i x) = length l.
-Proof. revert i; induction l as [|y l IH]; intros [|i]; cbn; auto. Qed.
-
-Lemma nth_set_nth {A} (l : list A) i j x y : nth_error l i = Some y ->
-  nth_error (set_nth l i x) j = if Nat.eqb i j then Some x else nth_error l j.
-Proof.
-  intros H. destruct (Nat.eqb_spec i j) as [->|N].
-  - apply nth_error_set_nth_same. apply nth_error_Some. congruence.
-  - apply nth_error_set_nth_other. exact N.
-Qed.
-
-Lemma sumu_cons u r : sumu (u :: r) = upc_handles (upcf u) + sumu r.
-Proof. reflexivity. Qed.
-
-Lemma sumu_set_nth l : forall j u u', nth_error l j = Some u ->
-  sumu (set_nth l j u') + upc_handles (upcf u) = sumu l + upc_handles (upcf u').
-Proof.
-  induction l as [|x l IH]; intros [|j] u u' H; cbn [nth_error set_nth] in *; try discriminate.
-  - inversion H; subst. rewrite !sumu_cons. lia.
-  - rewrite !sumu_cons. specialize (IH j u u' H). lia.
-Qed.
-
-Lemma sumu_ge l : forall j u, nth_error l j = Some u -> upc_handles (upcf u) <= sumu l.
-Proof.
-  induction l as [|x l IH]; intros [|j] u H; cbn [nth_error] in *; try discriminate.
-  - inversion H; subst. rewrite sumu_cons. lia.
-  - rewrite sumu_cons. specialize (IH j u H). lia.
-Qed.
-
-Lemma inl_set_nth l j u u' w : nth_error l j = Some u ->
-  inl (set_nth l j u') w = if Nat.eqb j w then inlist u' else inl l w.
-Proof.
-  intros H. unfold inl. rewrite (nth_set_nth l j w u' u H). destruct (Nat.eqb j w); reflexivity.
-Qed.
-
-Lemma cnt_nil n : cnt n [] = 0. Proof. reflexivity. Qed.
-Lemma cnt_cons n x r : cnt n (x :: r) = (if node_eqb n x then 1 else 0) + cnt n r. Proof. reflexivity. Qed.
-Lemma cntn_nil n : cntn n [] = 0. Proof. reflexivity. Qed.
-Lemma cntn_cons n x r : cntn n (x :: r) = (if Nat.eqb n x then 1 else 0) + cntn n r. Proof. reflexivity. Qed.
-Lemma cntn_app n a b : cntn n (a ++ b) = cntn n a + cntn n b.
-Proof. induction a as [|x a IH]; cbn [app]; rewrite ?cntn_nil, ?cntn_cons; lia. Qed.
-
-Lemma node_eqb_NU a b : node_eqb (NU a) (NU b) = Nat.eqb a b. Proof. reflexivity. Qed.
-Lemma node_eqb_NT_NU b : node_eqb NT (NU b) = false. Proof. reflexivity. Qed.
-Lemma node_eqb_NU_NT b : node_eqb (NU b) NT = false. Proof. reflexivity. Qed.
-Lemma node_eqb_NT : node_eqb NT NT = true. Proof. reflexivity. Qed.
-
-(* ---------- normal forms of the counter operations on a live state ---------- *)
-Definition dropped (s : st) : st := if Nat.eqb (rc s) 1 then free_state s else set_rc s (rc s - 1).
-
-Lemma touch_alive s : freed s = 0 -> touch s = s.
-Proof. unfold touch. intros ->. reflexivity. Qed.
-Lemma add_ref_alive s : freed s = 0 -> add_ref s = set_rc s (S (rc s)).
-Proof. intros H. unfold add_ref. rewrite touch_alive by exact H. reflexivity. Qed.
-Lemma drop_ref_alive s : freed s = 0 -> 1 <= rc s -> drop_ref s = dropped s.
-Proof.
-  intros H R. unfold drop_ref, dropped. rewrite touch_alive by exact H.
-  destruct (rc s) as [|[|n]] eqn:E; [lia|reflexivity|].
-  cbn [Nat.eqb]. f_equal; lia.
-Qed.
-
-Lemma alive_of_handles s : InvA s -> 1 <= nh s -> freed s = 0 /\ 1 <= rc s.
-Proof.
-  intros I H. destruct (fr_ok s I) as (F1 & F2).
-  assert (freed s = 0) as Z by (destruct (freed s) as [|[|n]]; [reflexivity| |lia]; destruct (F2 eq_refl); lia).
-  split; [exact Z|]. apply (rc_ok s I Z).
-Qed.
-
-Lemma alive_of_selfref s : InvA s -> selfref s = true -> freed s = 0 /\ 1 <= rc s.
-Proof.
-  intros I H. destruct (fr_ok s I) as (F1 & F2).
-  assert (freed s = 0) as Z.
-  { destruct (freed s) as [|[|n]]; [reflexivity| |lia]. destruct (F2 eq_refl) as (_ & _ & Q). congruence. }
-  split; [exact Z|]. apply (rc_ok s I Z).
-Qed.
-
-Lemma alive_creator s : InvA s -> cpcf s <> CDone -> freed s = 0 /\ 1 <= rc s.
-Proof.
-  intros I H. apply alive_of_handles; [exact I|]. unfold nh.
-  destruct (cpcf s) as [| | | | | |[|k]|]; try congruence; destruct (mode s); cbn; lia.
-Qed.
-
-Lemma alive_user s j u : InvA s -> nth_error (users s) j = Some u -> 1 <= upc_handles (upcf u) ->
-  freed s = 0 /\ 1 <= rc s.
-Proof.
-  intros I H U. apply alive_of_handles; [exact I|]. unfold nh. pose proof (sumu_ge _ _ _ H). lia.
-Qed.
-
-(* while the future is pending the state is alive: the creator is still inside the constructor / get_promise,
-   or the tracer holds the self reference *)
-Lemma alive_pending s : InvA s -> is_ready s = false -> freed s = 0 /\ 1 <= rc s.
-Proof.
-  intros I H. pose proof (tr_ok s I) as TR.
-  destruct (cpcf s) eqn:C;
-    try (apply alive_creator; [exact I|congruence]).
-  - destruct TR as (_ & [Q|Q]); [congruence|]. apply alive_of_selfref; assumption.
-Qed.
-
-Lemma alive_tracer s : InvA s -> 1 <= tcount s -> freed s = 0 /\ 1 <= rc s.
-Proof.
-  intros I H. pose proof (tr_ok s I) as TR.
-  destruct (cpcf s) eqn:C; try (apply alive_creator; [exact I|congruence]).
-  destruct TR as (Q & _). apply alive_of_selfref; [exact I|]. destruct (selfref s); [reflexivity|cbn in Q; lia].
-Qed.
-
-(* ---------- initial state ---------- *)
-Lemma decode_user_wait0 ops u : In u (flat_map decode_user ops) -> upcf u = UWait0.
-Proof.
-  intros H. apply in_flat_map in H. destruct H as (l & _ & H). unfold decode_user in H.
-  repeat match type of H with
-  | In _ (match ?x with _ => _ end) => destruct x; cbn [In] in H; try contradiction
-  end.
-  destruct H as [ <- |[]]. reflexivity.
-Qed.
-
-Lemma sumu_wait0 l : (forall u, In u l -> upcf u = UWait0) -> sumu l = 0.
-Proof.
-  induction l as [|x l IH]; intros H; [reflexivity|]. rewrite sumu_cons, IH.
-  - rewrite (H x (or_introl eq_refl)). reflexivity.
-  - intros u Hu. apply H. right. exact Hu.
-Qed.
-
-Lemma inl_wait0 l w : (forall u, In u l -> upcf u = UWait0) -> inl l w = 0.
-Proof.
-  intros H. unfold inl. destruct (nth_error l w) as [u|] eqn:E; [|reflexivity].
-  apply nth_error_In in E. unfold inlist. rewrite (H u E). reflexivity.
-Qed.
-
-Ltac simp_st :=
-  cbn [mode rk cpcf rpcf slot payload rc selfref freed pctor pdtor uaf pavail walk acc users
-       set_cpc set_rpc set_users set_user set_slot set_payload set_rc set_selfref set_pavail set_walk set_acc
-       bump_uaf free_state] in *.
-
-Lemma cpc_handles_next us m : cpc_handles m (next_give us m) = own_handles m.
-Proof. unfold next_give. destruct (existsb is_wait0 us); [reflexivity|]. destruct m; reflexivity. Qed.
-
-Lemma inv_init ops : Inv (init ops).
-Proof.
-  pose proof (decode_user_wait0 ops) as W.
-  unfold init. set (us := flat_map decode_user ops) in *. set (m := mode_of ops).
-  split; [constructor|]; simp_st; unfold nh, tcount, occ, chain, is_ready; simp_st.
-  - intros _. rewrite (sumu_wait0 us W). unfold init_cpc.
-    destruct m; try rewrite cpc_handles_next; cbn; lia.
-  - split; [lia|discriminate].
-  - reflexivity.
-  - destruct m; cbn; lia.
-  - unfold init_cpc, next_give. destruct m; cbn; try (destruct (existsb is_wait0 us)); cbn; auto.
-  - destruct m; cbn; auto.
-  - intros j u H. pose proof H as H2. apply nth_error_In in H. unfold kind_ok, kind_pc. rewrite (W u H). split; [destruct (ukd u); exact I|].
-    apply in_flat_map in H. destruct H as (l & _ & H). unfold decode_user in H.
-    repeat match type of H with
-    | In _ (match ?x with _ => _ end) => destruct x; cbn [In] in H; try contradiction
-    end.
-    destruct H as [ <- |[]]. cbn. discriminate.
-  - intros w. rewrite (inl_wait0 us w W). destruct m; reflexivity.
-Qed.
-
-(* ---------- steps ---------- *)
-Global Hint Rewrite cnt_nil cnt_cons cntn_nil cntn_cons cntn_app node_eqb_NU node_eqb_NT_NU node_eqb_NU_NT node_eqb_NT : cntdb.
-
-Ltac open_inv I :=
-  let I1 := fresh "Irc" in let I2 := fresh "Ifr" in let I3 := fresh "Iuaf" in let I4 := fresh "Ipd" in
-  let I5 := fresh "Itr" in let I6 := fresh "Irs" in let I7 := fresh "Ioc" in let I8 := fresh "Ikd" in
-  destruct I as [[I1 I2 I3 I4 I5 I6 I8] I7].
-Ltac open_invA I :=
-  let I1 := fresh "Irc" in let I2 := fresh "Ifr" in let I3 := fresh "Iuaf" in let I4 := fresh "Ipd" in
-  let I5 := fresh "Itr" in let I6 := fresh "Irs" in let I8 := fresh "Ikd" in
-  destruct I as [I1 I2 I3 I4 I5 I6 I8].
-Ltac mk_inv := split; [constructor|].
-
-Ltac unf := unfold nh, tcount, occ, chain, is_ready, after_charge in *; simp_st.
-
-Lemma dropped_fields s :
-  mode (dropped s) = mode s /\ rk (dropped s) = rk s /\ cpcf (dropped s) = cpcf s /\ rpcf (dropped s) = rpcf s /\
-  slot (dropped s) = slot s /\ payload (dropped s) = payload s /\ selfref (dropped s) = selfref s /\
-  pctor (dropped s) = pctor s /\ uaf (dropped s) = uaf s /\ pavail (dropped s) = pavail s /\
-  walk (dropped s) = walk s /\ acc (dropped s) = acc s /\ users (dropped s) = users s.
-Proof. unfold dropped. destruct (Nat.eqb (rc s) 1); cbn; repeat split. Qed.
-
-Lemma dropped_counts s : 1 <= rc s ->
-  (rc s = 1 /\ rc (dropped s) = 0 /\ freed (dropped s) = S (freed s) /\ pdtor (dropped s) = pdtor s + pctor s) \/
-  (2 <= rc s /\ rc (dropped s) = rc s - 1 /\ freed (dropped s) = freed s /\ pdtor (dropped s) = pdtor s).
-Proof.
-  intros H. unfold dropped. destruct (Nat.eqb_spec (rc s) 1) as [E|E]; cbn; [left|right]; repeat split; lia.
-Qed.
-
-Ltac show_goals := match goal with |- ?G => idtac "GOAL" G end.
-
-Lemma b2n_true : b2n true = 1. Proof. reflexivity. Qed.
-Lemma b2n_false : b2n false = 0. Proof. reflexivity. Qed.
-
-Ltac rew_hyps :=
-  repeat match goal with
-  | H : cpcf _ = _ |- _ => progress (rewrite H in * )
-  | H : rpcf _ = _ |- _ => progress (rewrite H in * )
-  | H : slot _ = _ |- _ => progress (rewrite H in * )
-  | H : selfref _ = _ |- _ => progress (rewrite H in * )
-  | H : mode _ = _ |- _ => progress (rewrite H in * )
-  | H : walk _ = _ |- _ => progress (rewrite H in * )
-  | H : acc _ = _ |- _ => progress (rewrite H in * )
-  | H : freed _ = _ |- _ => progress (rewrite H in * )
-  | H : users _ = _ |- _ => progress (rewrite H in * )
-  | H : payload _ = _ |- _ => progress (rewrite H in * )
-  | H : pctor _ = _ |- _ => progress (rewrite H in * )
-  | H : pdtor _ = _ |- _ => progress (rewrite H in * )
-  | H : uaf _ = _ |- _ => progress (rewrite H in * )
-  | H : pavail _ = _ |- _ => progress (rewrite H in * )
-  | H : rk _ = _ |- _ => progress (rewrite H in * )
-  | H : rc _ = _ |- _ => progress (rewrite H in * )
-  | H : upcf _ = _ |- _ => progress (rewrite H in * )
-  | H : ukd _ = _ |- _ => progress (rewrite H in * )
-  | H : uflag _ = _ |- _ => progress (rewrite H in * )
-  end.
-
-(* replace `dropped x` by an opaque state d with known fields; two cases: last reference or not *)
-Ltac use_dropped x HB :=
-  let DF := fresh "DF" in let DC := fresh "DC" in let d := fresh "d" in
-  pose proof (dropped_fields x) as DF; pose proof (dropped_counts x HB) as DC;
-  set (d := dropped x) in *; clearbody d; simp_st;
-  destruct DF as (?DF & ?DF & ?DF & ?DF & ?DF & ?DF & ?DF & ?DF & ?DF & ?DF & ?DF & ?DF & ?DF);
-  destruct DC as [(?DC & ?DC & ?DC & ?DC)|(?DC & ?DC & ?DC & ?DC)].
-
-Lemma give_spec l : forall us, give l = Some us ->
-  exists j u, nth_error l j = Some u /\ upcf u = UWait0 /\ us = set_nth l j (set_upc u UWait1).
-Proof.
-  induction l as [|x l IH]; intros us H; cbn [give] in H; [discriminate|].
-  unfold is_wait0 in H. destruct (upcf x) eqn:E;
-    try (destruct (give l) as [r|] eqn:G; [|discriminate]; inversion H; subst;
-         destruct (IH r eq_refl) as (j & u & A & B & ->); exists (S j), u; repeat split; assumption).
-  inversion H; subst. exists 0, x. repeat split. exact E.
-Qed.
-
-Lemma give_none l : give l = None -> existsb is_wait0 l = false.
-Proof.
-  induction l as [|x l IH]; intros H; cbn [give existsb] in *; [reflexivity|].
-  destruct (is_wait0 x); [discriminate|]. destruct (give l); [discriminate|]. cbn. apply IH. reflexivity.
-Qed.
-
-Lemma kd_set_nth l j u u' :
-  (forall j0 u0, nth_error l j0 = Some u0 -> kind_ok u0) -> nth_error l j = Some u -> kind_ok u' ->
-  forall j0 u0, nth_error (set_nth l j u') j0 = Some u0 -> kind_ok u0.
-Proof.
-  intros K H K' j0 u0 Q. rewrite (nth_set_nth l j j0 u' u H) in Q. destruct (Nat.eqb j j0).
-  - inversion Q; subst. exact K'.
-  - eapply K; eassumption.
-Qed.
-
-
-Ltac norm :=
-  autorewrite with cntdb in *; rewrite ?b2n_true, ?b2n_false, ?Nat.eqb_refl in *;
-  repeat match goal with
-  | N : ?a <> ?b |- context[Nat.eqb ?b ?a] => rewrite (proj2 (Nat.eqb_neq b a)) by auto
-  | N : ?a <> ?b |- context[Nat.eqb ?a ?b] => rewrite (proj2 (Nat.eqb_neq a b)) by auto
-  | N : ?a <> ?b, H : context[Nat.eqb ?b ?a] |- _ => rewrite (proj2 (Nat.eqb_neq b a)) in H by auto
-  | N : ?a <> ?b, H : context[Nat.eqb ?a ?b] |- _ => rewrite (proj2 (Nat.eqb_neq a b)) in H by auto
-  end;
-  try rewrite cpc_handles_next; cbn [cpc_handles own_handles] in *.
-
-Ltac split_hyps :=
-  repeat match goal with
-  | H : _ /\ _ |- _ => destruct H
-  end.
-
-Ltac fin := try assumption; repeat split; try assumption; try tauto; try lia; try congruence; auto.
-
-Ltac user_fields := cbn [ucp ukd upcf uflag useen uruns set_upc upc_handles] in *.
-
-Ltac go :=
-  try match goal with
-  | Ikd : forall j u, nth_error (users _) j = Some u -> kind_ok u, Hj : nth_error (users _) ?j = Some ?u |- _ =>
-      let K := fresh "K" in pose proof (Ikd j u Hj) as K; unfold kind_ok, kind_pc in K
-  end;
-  unf; rew_hyps; norm; split_hyps; rew_hyps; norm;
-  try (unfold next_give; destruct (existsb is_wait0 _));
-  try match goal with
-  | Ioc : forall w, _ = inl _ w |- forall w : nat, @?P w = @?Q w => let w := fresh "w" in intros w; specialize (Ioc w); norm
-  end;
-  try match goal with
-  | Hj : nth_error (users _) ?j = Some ?u |- context[inl (set_nth _ ?j ?u') ?w] =>
-      rewrite (inl_set_nth _ j u u' w Hj);
-      destruct (Nat.eqb_spec j w); [subst; unfold inl in *; rewrite Hj in *|];
-      unfold inlist in *; user_fields; rew_hyps; norm
-  end;
-  try match goal with
-  | Ikd : forall j u, nth_error (users _) j = Some u -> kind_ok u, Hj : nth_error (users _) ?j = Some ?u
-    |- forall j0 u0, nth_error (set_nth _ ?j ?u') j0 = Some u0 -> kind_ok u0 =>
-      apply (kd_set_nth _ j u u' Ikd Hj); specialize (Ikd j u Hj); unfold kind_ok, kind_pc in *; user_fields; rew_hyps
-  end;
-  fin;
-  try (let F := fresh "F" in intro F;
-       repeat match goal with H : uflag _ = true -> _ |- _ => specialize (H F) end; intuition congruence);
-  try (destruct (uflag _) eqn:?; rew_hyps; norm; fin; exfalso;
-       repeat match goal with H : true = true -> _ |- _ => specialize (H eq_refl) end; intuition congruence);
-  try (destruct (selfref _) eqn:?; rew_hyps; norm; fin);
-  try (destruct (rpcf _) eqn:?; rew_hyps; fin);
-  try (destruct (rk _); cbn [has_payload]; lia);
-  try (destruct (cpcf _) eqn:?; rew_hyps; norm; split_hyps; rew_hyps; norm; fin;
-       try (destruct (selfref _) eqn:?; rew_hyps; norm; fin)).
-
-Lemma inv_cstep s : Inv s -> cpcf s <> CDone -> Inv (fst (cstep s)).
-Proof.
-  intros I E. destruct (alive_creator s (proj1 I) E) as (A & B). pose proof I as I0. open_inv I.
-  specialize (Irc A).
-  unfold cstep. destruct (cpcf s) as [| | |r e| | |k|] eqn:C; cbn [fst]; try congruence.
-  - (* CClaim *)
-    mk_inv; go.
-  - (* CDtor *)
-    destruct (mode s) eqn:M.
-    2: { rewrite touch_alive by exact A. destruct (slot s) as [l|] eqn:SL.
-      + mk_inv; go.
-      + mk_inv; go. }
-    all: mk_inv; go.
-  - (* CSet *)
-    rewrite add_ref_alive by exact A.
-    mk_inv; go.
-  - (* CSub *)
-    rewrite touch_alive by exact A. destruct (slot s) as [l|] eqn:SL.
-    + destruct (onode_eqb (head l) e).
-      * mk_inv; go.
-      * mk_inv; go.
-    + mk_inv; go.
-  - (* CClr *)
-    destruct Itr as (SR & T & RD).
-    rewrite touch_alive by exact A. rewrite drop_ref_alive by (simp_st; assumption).
-    use_dropped (set_selfref s false) B; mk_inv; go.
-  - (* CGive *)
-    destruct (give (users s)) as [us|] eqn:G.
-    + destruct (give_spec _ _ G) as (j & u & Hj & Hu & ->).
-      rewrite add_ref_alive by exact A.
-      pose proof (sumu_set_nth (users s) j u (set_upc u UWait1) Hj) as SU. rewrite Hu in SU. cbn [upcf set_upc upc_handles] in SU.
-      mk_inv; go.
-    + destruct (mode s) eqn:M; mk_inv; go.
-  - (* CDrop *)
-    rewrite drop_ref_alive by assumption.
-    destruct k as [|[|k]]; use_dropped s B; mk_inv; go.
-Qed.
-
-(* an awaiting user that holds one handle picks up the result and lets the handle go *)
-Definition done_user (s : st) (u : uthr) : uthr :=
-  mkU (ucp u) (ukd u) UDone (uflag u) (Some (payload s)) (S (uruns u)).
-
-Lemma fu_inv s j u : InvA s -> nth_error (users s) j = Some u -> upc_handles (upcf u) = 1 ->
-  InvA (finish_user s j) /\
-  users (finish_user s j) = set_nth (users s) j (done_user s u) /\
-  slot (finish_user s j) = slot s /\ walk (finish_user s j) = walk s /\ acc (finish_user s j) = acc s /\
-  rpcf (finish_user s j) = rpcf s /\ cpcf (finish_user s j) = cpcf s /\ mode (finish_user s j) = mode s /\
-  rk (finish_user s j) = rk s /\ payload (finish_user s j) = payload s /\ pavail (finish_user s j) = pavail s.
-Proof.
-  intros I Hj HU. destruct (alive_user s j u I Hj ltac:(lia)) as (A & B). open_invA I. specialize (Irc A).
-  unfold finish_user. rewrite Hj. rewrite touch_alive by exact A.
-  rewrite drop_ref_alive by (simp_st; assumption).
-  pose proof (sumu_set_nth (users s) j u (done_user s u) Hj) as SU. rewrite HU in SU. cbn [done_user upcf upc_handles] in SU.
-  fold (done_user s u).
-  use_dropped (set_user s j (done_user s u)) B; (split; [constructor|]); go.
-Qed.
-
-Ltac upd Hj u' :=
-  match type of Hj with nth_error ?l ?j = Some ?u =>
-    let SU := fresh "SU" in pose proof (sumu_set_nth l j u u' Hj) as SU; user_fields; rew_hyps; user_fields
-  end.
-
-(* own-thread completion of an await: the user is not linked anywhere *)
-Lemma fu_self s j u : Inv s -> nth_error (users s) j = Some u -> upc_handles (upcf u) = 1 -> inlist u = 0 ->
-  Inv (finish_user s j).
-Proof.
-  intros [IA OC] Hj HU IL. destruct (fu_inv s j u IA Hj HU) as (IA' & US & SL & WK & AC & _).
-  split; [exact IA'|]. intros w. specialize (OC w). unfold occ, chain in *. rewrite SL, WK, AC, US.
-  rewrite (inl_set_nth _ j u _ w Hj). destruct (Nat.eqb_spec j w) as [->|N]; [|exact OC].
-  unfold inl in OC. rewrite Hj, IL in OC. rewrite OC. reflexivity.
-Qed.
-
-Lemma inv_ustep s j : Inv s -> enabled s (S (S j)) = true -> Inv (fst (ustep s j)).
-Proof.
-  intros I E. cbn [enabled] in E. destruct (nth_error (users s) j) as [u|] eqn:Hj; [|discriminate].
-  unfold ustep. rewrite Hj. destruct (upcf u) eqn:PC; try discriminate; cbn [fst].
-  all: destruct (alive_user s j u (proj1 I) Hj ltac:(rewrite PC; cbn; lia)) as (A & B).
-  - (* UWait1 *)
-    pose proof I as I0. open_inv I. specialize (Irc A).
-    destruct (ucp u), (ukd u) eqn:KD; cbn [first_action];
-    match goal with |- Inv (set_user _ _ ?u') => upd Hj u' end; mk_inv; go.
-  - (* UInc *)
-    pose proof I as I0. open_inv I. specialize (Irc A). rewrite add_ref_alive by exact A.
-    match goal with |- Inv (set_user _ _ ?u') => upd Hj u' end; mk_inv; go.
-  - (* UDecO *)
-    pose proof I as I0. open_inv I. specialize (Irc A). rewrite drop_ref_alive by assumption.
-    destruct (ukd u) eqn:KD; cbn [first_action];
-    match goal with |- Inv (set_user _ _ ?u') => upd Hj u' end; use_dropped s B; mk_inv; go.
-  - (* UReady *)
-    rewrite touch_alive by exact A.
-    destruct (ukd u) eqn:KD.
-    + pose proof I as I0. open_inv I. specialize (Irc A).
-      match goal with |- Inv (set_user _ _ ?u') => upd Hj u' end; mk_inv; go.
-    + pose proof I as I0. open_inv I. specialize (Irc A).
-      match goal with |- Inv (set_user _ _ ?u') => upd Hj u' end; mk_inv; go.
-    + destruct (slot s) eqn:SL.
-      * pose proof I as I0. open_inv I. specialize (Irc A).
-        match goal with |- Inv (set_user _ _ ?u') => upd Hj u' end; mk_inv; go.
-      * apply (fu_self s j u I Hj); [rewrite PC; reflexivity|unfold inlist; rewrite PC; reflexivity].
-  - (* USub *)
-    rewrite touch_alive by exact A. destruct (slot s) as [l|] eqn:SL.
-    + pose proof I as I0. open_inv I. specialize (Irc A). destruct (onode_eqb (head l) exp).
-      * destruct (ukd u) as [| |[| |]] eqn:KD;
-        match goal with |- Inv (set_user _ _ ?u') => upd Hj u' end; mk_inv; go.
-      * match goal with |- Inv (set_user _ _ ?u') => upd Hj u' end; mk_inv; go.
-    + apply (fu_self s j u I Hj); [rewrite PC; reflexivity|unfold inlist; rewrite PC; reflexivity].
-  - (* UFlag *)
-    apply (fu_self s j u I Hj); [rewrite PC; reflexivity|unfold inlist; rewrite PC, E; reflexivity].
-  - (* UDec *)
-    pose proof I as I0. open_inv I. specialize (Irc A). rewrite drop_ref_alive by assumption.
-    match goal with |- Inv (set_user _ _ ?u') => upd Hj u' end; use_dropped s B; mk_inv; go.
-Qed.
-
-(* ---------- the resolver ---------- *)
-Lemma inl_pos us w : 1 <= inl us w -> exists u, nth_error us w = Some u /\ inlist u = 1.
-Proof.
-  unfold inl. destruct (nth_error us w) as [u|]; [|lia]. intros H. exists u. split; [reflexivity|].
-  unfold inlist in *. destruct (upcf u); try lia. destruct (uflag u); lia.
-Qed.
-
-Lemma inlist_handles u : inlist u = 1 -> upc_handles (upcf u) = 1.
-Proof. unfold inlist. destruct (upcf u); try discriminate; reflexivity. Qed.
-
-Lemma resume_all_inv l : forall s, InvA s ->
-  (forall w, cnt (NU w) (chain s) + cnt (NU w) (walk s) + cntn w l = inl (users s) w) ->
-  InvA (resume_all s l) /\
-  (forall w, cnt (NU w) (chain s) + cnt (NU w) (walk s) = inl (users (resume_all s l)) w) /\
-  slot (resume_all s l) = slot s /\ walk (resume_all s l) = walk s /\ acc (resume_all s l) = acc s /\
-  rpcf (resume_all s l) = rpcf s /\ cpcf (resume_all s l) = cpcf s /\ mode (resume_all s l) = mode s /\
-  rk (resume_all s l) = rk s /\ payload (resume_all s l) = payload s /\ pavail (resume_all s l) = pavail s.
-Proof.
-  induction l as [|c t IH]; intros s IA OC; cbn [resume_all].
-  - split; [exact IA|]. split; [intros w; specialize (OC w); rewrite cntn_nil in OC; lia|]. repeat split; reflexivity.
-  - assert (1 <= inl (users s) c) as P by (specialize (OC c); rewrite cntn_cons, Nat.eqb_refl in OC; lia).
-    destruct (inl_pos _ _ P) as (u & Hc & IL).
-    destruct (fu_inv s c u IA Hc (inlist_handles u IL)) as (IA' & US & SL & WK & AC & RP & CP & MD & RK & PL & PA).
-    destruct (IH (finish_user s c) IA') as (J1 & J2 & J3 & J4 & J5 & J6 & J7 & J8 & J9 & J10 & J11).
-    + intros w. specialize (OC w). unfold chain in *. rewrite SL, WK, US. rewrite cntn_cons in OC.
-      rewrite (inl_set_nth _ c u _ w Hc). destruct (Nat.eqb_spec c w) as [->|N].
-      * rewrite Nat.eqb_refl in OC. unfold inl in OC. rewrite Hc, IL in OC. cbn. lia.
-      * rewrite (proj2 (Nat.eqb_neq w c)) in OC by auto. exact OC.
-    + split; [exact J1|]. unfold chain in *. rewrite SL, WK in J2.
-      split; [exact J2|]. repeat split; congruence.
-Qed.
-
-Lemma inv_finish s : Inv s -> rpcf s = RWalk -> walk s = [] -> Inv (finish s).
-Proof.
-  intros [IA OC] RP WK. unfold finish.
-  destruct (resume_all_inv (acc s) s IA OC) as (J1 & J2 & J3 & J4 & J5 & J6 & J7 & J8 & J9 & J10 & J11).
-  set (s1 := resume_all s (acc s)) in *. clearbody s1. open_invA J1. open_invA IA.
-  mk_inv; go.
-Qed.
-
-Lemma inv_mf s : Inv s -> rpcf s = RWalk -> Inv (maybe_finish s).
-Proof.
-  intros I RP. unfold maybe_finish. destruct (walk s) eqn:W; [apply inv_finish; assumption|exact I].
-Qed.
-
-(* the resolver's step before the end-of-walk test: (state, whether maybe_finish follows) *)
-Definition rstep_in (s : st) : st * bool :=
-  match rpcf s with
-  | RXWait => (set_rpc s RClaim, false)
-  | RClaim => (let s1 := touch s in set_rpc (set_payload s1 (payload_of (rk s1)) (has_payload (rk s1))) RResolve, false)
-  | RResolve =>
-      (let s1 := touch s in
-       let l := match slot s1 with SChain l => l | SReady => [] end in
-       set_rpc (set_walk (set_slot s1 SReady) l) RWalk, true)
-  | RWalk =>
-      match walk s with
-      | [] => (s, true)
-      | NT :: t => (set_rpc (set_walk (touch s) t) RClr, false)
-      | NU w :: t => (release_node (set_walk s t) w, true)
-      end
-  | RClr => (set_rpc (drop_ref (set_selfref (touch s) false)) RWalk, true)
-  | RDone _ => (s, false)
-  end.
-
-Lemma rstep_in_eq s :
-  fst (rstep s) = if snd (rstep_in s) then maybe_finish (fst (rstep_in s)) else fst (rstep_in s).
-Proof.
-  unfold rstep, rstep_in. destruct (rpcf s); try reflexivity. destruct (walk s) as [|[|w] t]; reflexivity.
-Qed.
-
-Lemma inv_rstep_in s : Inv s -> enabled s 1 = true ->
-  Inv (fst (rstep_in s)) /\ (snd (rstep_in s) = true -> rpcf (fst (rstep_in s)) = RWalk).
-Proof.
-  intros I E. cbn [enabled] in E. unfold rstep_in. destruct (rpcf s) eqn:RP; try discriminate; cbn [fst snd].
-  - (* RXWait *)
-    split; [|discriminate]. open_inv I. mk_inv; go.
-  - (* RClaim *)
-    destruct (alive_pending s (proj1 I)) as (A & B). { pose proof (rs_ok s (proj1 I)) as Q. rewrite RP in Q. tauto. }
-    rewrite touch_alive by exact A. split; [|discriminate]. open_inv I. specialize (Irc A).
-    mk_inv; go.
-  - (* RResolve *)
-    destruct (alive_pending s (proj1 I)) as (A & B). { pose proof (rs_ok s (proj1 I)) as Q. rewrite RP in Q. tauto. }
-    rewrite touch_alive by exact A. split; [|reflexivity].
-    open_inv I. specialize (Irc A). destruct (slot s) as [l|] eqn:SL.
-    + mk_inv; go.
-    + exfalso. unf. rew_hyps. destruct Irs. discriminate.
-  - (* RWalk *)
-    destruct (walk s) as [|[|w] t] eqn:WK.
-    + cbn [fst snd]. split; [exact I|intros _; exact RP].
-    + destruct (alive_tracer s (proj1 I)) as (A & B). { unfold tcount. rewrite WK. autorewrite with cntdb. lia. }
-      rewrite touch_alive by exact A. cbn [fst snd]. split; [|discriminate]. open_inv I. specialize (Irc A).
-      mk_inv; go.
-    + (* a user node *)
-      cbn [fst snd].
-      destruct I as [IA OC].
-      assert (IA0 : InvA (set_walk s t)). { open_invA IA. constructor; go. }
-      assert (P : 1 <= inl (users s) w).
-      { specialize (OC w). unfold occ in OC. rewrite WK in OC. autorewrite with cntdb in OC. rewrite Nat.eqb_refl in OC. lia. }
-      destruct (inl_pos _ _ P) as (u & Hw & IL).
-      unfold release_node. simp_st. rewrite Hw.
-      assert (OC0 : forall w0, cnt (NU w0) (chain s) + ((if Nat.eqb w0 w then 1 else 0) + cnt (NU w0) t) + cntn w0 (acc s) = inl (users s) w0).
-      { intros w0. specialize (OC w0). unfold occ in OC. rewrite WK in OC. autorewrite with cntdb in OC. exact OC. }
-      clear OC.
-      pose proof (kd_ok s IA w u Hw) as K. unfold kind_ok, kind_pc in K.
-      unfold inlist in IL.
-      destruct (ukd u) as [| |[| |]] eqn:KD.
-      * (* not an await kind: cannot be linked *)
-        exfalso. destruct (upcf u); try discriminate; tauto.
-      * exfalso. destruct (upcf u); try discriminate; tauto.
-      * (* coroutine: collected in the suspend point *)
-        split; [|intros _; exact RP]. open_invA IA. split; [constructor|]; go.
-      * (* blocking: flag *)
-        split; [|intros _; exact RP].
-        destruct (upcf u) eqn:PC; try discriminate; try tauto.
-        destruct (uflag u) eqn:FL; [discriminate|].
-        open_invA IA.
-        match goal with |- Inv (set_user _ _ ?u') => upd Hw u' end. split; [constructor|]; go.
-      * (* callback: runs now *)
-        assert (HU : upc_handles (upcf u) = 1) by (destruct (upcf u); try discriminate; reflexivity).
-        destruct (fu_inv (set_walk s t) w u IA0 Hw HU) as (IA' & US & SL & WK' & AC & RP' & _).
-        split; [|intros _; rewrite RP'; exact RP].
-        split; [exact IA'|]. intros w0. specialize (OC0 w0). unfold occ, chain in *. rewrite SL, WK', AC, US. simp_st.
-        rewrite (inl_set_nth _ w u _ w0 Hw). destruct (Nat.eqb_spec w w0) as [->|N].
-        -- rewrite Nat.eqb_refl in OC0. unfold inl in OC0. rewrite Hw in OC0. unfold inlist in OC0.
-           cbn [done_user inlist upcf]. destruct (upcf u); try discriminate; try lia.
-        -- rewrite (proj2 (Nat.eqb_neq w0 w)) in OC0 by auto. exact OC0.
-  - (* RClr *)
-    destruct (alive_tracer s (proj1 I)) as (A & B). { unfold tcount. rewrite RP. lia. }
-    rewrite touch_alive by exact A. rewrite drop_ref_alive by (simp_st; assumption).
-    split.
-    2: { intros _. simp_st. reflexivity. }
-    open_inv I. specialize (Irc A).
-    use_dropped (set_selfref s false) B; mk_inv; go.
-Qed.
-
-Lemma inv_rstep s : Inv s -> enabled s 1 = true -> Inv (fst (rstep s)).
-Proof.
-  intros I E. rewrite rstep_in_eq. destruct (inv_rstep_in s I E) as (A & B).
-  destruct (snd (rstep_in s)); [apply inv_mf; auto|exact A].
-Qed.
 
 Theorem inv_step s i : Inv s -> enabled s i = true -> Inv (fst (tstep s i)).
 Proof.
@@ -644,3 +14,4 @@ Qed.
 
 Theorem inv_reachable ops s : reachable ops s -> Inv s.
 Proof. induction 1; [apply inv_init|apply inv_step; assumption]. Qed.
+
